@@ -120,3 +120,11 @@ def discharge(run, harness, specs, timeout, replay_fn, env=None, key_prefix=''):
     else:
       run.ob(name, 'unknown' if r['status'] == 'unknown' else 'error', r['secs'], detail=r['message'][:300])
   return res
+
+
+def concrete_probe(run, name, bad, msg, replay_input):
+  """Concrete layer of an Engine-X check: the property's oracle on the REAL code and real libraries for a few literal inputs.
+  A failure is a real failing input against the real code, hence a violation (not merely a broken witness)."""
+  run.ob('concrete:' + name, 'sat' if bad else 'unsat', detail=msg if bad else None, nontrivial=False)
+  if bad:
+    run.violation('concrete:' + name, 'real code fails the oracle on a literal input (%s): %s' % (name, msg), replay_input, True)
